@@ -136,7 +136,7 @@ def site_obligations(prog: Program, res: Result, rule: str, need_bare: bool) -> 
     return stats
 
 
-LATER_RULES = ' Later rules: (R8.3) star imports of a preserved file record every bare name; (R8.4c) dunder functions outside classes are never unused; (R8.5) = C05 R5.5 restricted to what feeds `preserve`; (R8.6) rules deleting unused imports take `preserve`.'
+LATER_RULES = ' Later rules: (R8.3) star imports of a preserved file record every bare name; (R8.4c) dunder functions outside classes are never unused; (R8.5) = C05 R5.5 restricted to what feeds `preserve`; (R8.6) rules deleting unused imports take `preserve`; (R8.8) the pattern that un-mangles private member names is probed with class names that end in an underscore.'
 
 
 def check(prog: Program, tier: str) -> Result:
@@ -164,6 +164,7 @@ def check(prog: Program, tier: str) -> Result:
     _producer(prog, res)
     _producer_star_imports(prog, res)
     _producer_other_spellings(prog, res)
+    _producer_unmangling(prog, res)
     _magic_methods(prog, res)
     _magic_functions_outside_classes(prog, res)
     # R8.5: the names used by the preserved files are READ FROM DISK for every run: no memo between the files and `preserve`
@@ -209,7 +210,7 @@ def check(prog: Program, tier: str) -> Result:
     res.ok("R8.5", "pyrefact/main.py", "main", f"memoised functions between the preserved files and `preserve` # {len(anchors)} producer function(s) followed",
            f"{n_memo} memoised function(s) reachable, each judged above", trivial=bool(n_memo))
     _r8_6(prog, res)
-    res.floors.update({"R8.1": 10, "R8.2": 8, "R8.3": 3, "R8.4": 1, "R8.6": 1, "R8.7": 3})
+    res.floors.update({"R8.1": 10, "R8.2": 8, "R8.3": 3, "R8.4": 1, "R8.6": 1, "R8.7": 3, "R8.8": 1})
     res.analysed.update(stats)
     return res
 
@@ -432,6 +433,43 @@ def _producer_other_spellings(prog: Program, res: Result) -> None:
 
 
 
+MANGLING_PROBES = ("Engine", "Engine_", "_Engine", "Type__")
+
+
+def _producer_unmangling(prog: Program, res: Result) -> None:
+    """R8.8: python spells the private member `__step` of class C as `_` + C without its leading underscores + `__step` - for a class
+    whose name ENDS in an underscore (`Engine_`, `Type_`: the usual way round a keyword or builtin) that is `_Engine___step`, three
+    underscores in a row.  The producer finds the member name with a pattern (`re.finditer(P, <attr>)`, recording `<attr>[m.start():]`);
+    the pattern read from the source is applied (standard library `re`, nothing of pyrefact runs) to the mangled spelling of `__step`
+    in the classes MANGLING_PROBES: `__step` must be among the recorded tails for each of them."""
+    fn = prog.func("main", "_used_names_in_file")
+    n = 0
+    for c in prog.calls_in(fn):
+        if not (norm(c.func) in ("re.finditer",) and len(c.args) == 2 and isinstance(c.args[0], ast.Constant) and isinstance(c.args[0].value, str)
+                and isinstance(c.args[1], ast.Attribute) and c.args[1].attr == "attr"):
+            continue
+        comp = parent(parent(c)) if isinstance(parent(c), ast.comprehension) else None
+        elt = getattr(comp, "elt", None)
+        if not (isinstance(elt, ast.Subscript) and isinstance(elt.slice, ast.Slice) and elt.slice.upper is None and "start" in norm(elt.slice.lower or ast.Constant(value=""))):
+            continue
+        n += 1
+        try:
+            pat = re.compile(c.args[0].value)
+        except re.error as e:
+            res.bad("R8.8", fn.loc(c), fn.fq, f"{short(c, 60)} # the pattern that finds the member name in a mangled one", f"the pattern does not compile: {e}")
+            continue
+        missed = []
+        for cls in MANGLING_PROBES:
+            attr = "_" + cls.lstrip("_") + "__step"
+            if "__step" not in {attr[m.start():] for m in pat.finditer(attr)}:
+                missed.append(f"{cls}: obj.{attr}")
+        res.decide(not missed, "R8.8", fn.loc(c), fn.fq, f"{short(c, 60)} # the pattern that finds the member name in a mangled one",
+                   f"finds `__step` in its mangled spelling for the classes {list(MANGLING_PROBES)}" if not missed else
+                   f"does not find `__step` in {missed}: the client's use is not recorded, the method is not in the preserve set and is deleted or renamed in the library")
+    if n == 0:
+        res.undecided("R8.8", fn.loc(), fn.fq, "the pattern that finds the member name in a mangled one", "no `<attr>[m.start():] for m in re.finditer(<constant>, <attr>)` in the producer")
+
+
 def _producer_star_imports(prog: Program, res: Result) -> None:
     """R8.3 (star imports): after `from lib import *` every bare name of the preserved file that it does not define itself may
     come from lib.  The producer only records bare names that are IMPORTED names - for a star import that set holds just '*'.
@@ -538,11 +576,17 @@ def _producer(prog: Program, res: Result) -> None:
 from ..selftest import Variant  # noqa: E402
 
 VARIANTS = [
+    Variant("member-name-needs-a-letter-before-the-underscores", "FIRE", "main",
+            "re.finditer(r\"(?<=.)__(?=[^_])\", node.attr)", "re.finditer(r\"(?<=[^_])__(?=[^_])\", node.attr)", "R8.8"),
+    Variant("member-name-found-anywhere-but-at-the-start", "SILENT", "main",
+            "re.finditer(r\"(?<=.)__(?=[^_])\", node.attr)", "re.finditer(r\"(?<!^)__(?=[^_])\", node.attr)"),
+    Variant("member-name-with-the-extra-underscores-of-the-class", "FIRE", "main",
+            "re.finditer(r\"(?<=.)__(?=[^_])\", node.attr)", "re.finditer(r\"(?<=[^_])_*?__(?=[^_])\", node.attr)", "R8.8"),
     Variant("star-imports-narrowed-without-the-preserved-names", "FIRE", "tracing", "    for name in sorted(undefined_names | passed_on_names):", "    for name in sorted(undefined_names):", "R8.6"),
     Variant("single-run-chain-called-without-preserve", "FIRE", "main", "    source = single_run_fixes(source, preserve=preserve)", "    source = single_run_fixes(source)", "R8.6"),
     Variant("keyword-names-not-recorded", "FIRE", "main", "    names.extend(node.arg for node in core.walk(ast_root, ast.keyword) if node.arg)\n", "", "R8.7"),
     Variant("class-pattern-keywords-not-recorded", "FIRE", "main", "            names.extend(node.kwd_attrs)\n", "            pass\n", "R8.7"),
-    Variant("mangled-names-not-unmangled", "FIRE", "main", "            names.extend(\n                node.attr[match.start() :]\n                for match in re.finditer(r\"(?<=[^_])__(?=[^_])\", node.attr)\n                if node.attr.startswith(\"_\") and not node.attr.endswith(\"__\")\n            )\n", "", "R8.7"),
+    Variant("mangled-names-not-unmangled", "FIRE", "main", "            names.extend(\n                node.attr[match.start() :]\n                for match in re.finditer(r\"(?<=.)__(?=[^_])\", node.attr)  # _Engine___step in Engine_\n                if node.attr.startswith(\"_\") and not node.attr.endswith(\"__\")\n            )\n", "", "R8.7"),
     Variant("star-import-of-the-client-ignored", "FIRE", "main",
             "        if any(alias.name == \"*\" for alias in node.names):\n            # Whatever is not defined here may come from the star import\n            names.extend(name.id for name in core.walk(ast_root, ast.Name))\n", "", "R8.3"),
     Variant("module-level-dunder-counts-as-unused", "FIRE", "fixes", "        elif parsing.is_magic_method(def_node):\n            continue  # A module level __getattr__ or __dir__ is called by the import system\n", "", "R8.4"),
